@@ -1307,7 +1307,7 @@ func (p *Path) callFunction(fn *ssa.Function, args, bindings []Value, site ssa.I
 			return h(p, fn, args)
 		}
 	}
-	if p.eng.isNoop(name) {
+	if p.eng.isNoop(name) || matchNoop(p.h.Noop, name) {
 		return p.zeroResults(fn.Signature)
 	}
 	if fn.Name() == "init" && fn.Pkg != nil && fn.Signature.Recv() == nil && fn.Parent() == nil && len(fn.Params) == 0 && strings.HasSuffix(name, ".init") {
